@@ -32,28 +32,20 @@ theorem mem_copyV_all (s : PR α) (n : String) : n ∈ (copyV s).all ↔ n ∈ s
 
 /-- every C10 operation answers the copy exactly as it answers the original, and leaves it in the same
     abstract state (so `as_list`, `as_dict`, `dump`, `keys`, `len`, … agree, and keep agreeing) -/
-theorem copy_same_answers (s : PR α) (h : PRInv s) (op : Op α (PR α)) (hop : OpOk s op) :
+theorem copy_same_answers (s : PR α) (h : PRInv s) (op : Op α (PR α)) (hop : OpOk op) :
     (step (copyV s) op).2 = (step s op).2 ∧ abs (step (copyV s) op).1 = abs (step s op).1 := by
-  have hop' : OpOk (copyV s) op := by
-    cases op <;> first
-      | trivial
-      | (simp only [OpOk, OtherOk] at hop ⊢
-         exact ⟨hop.1, hop.2.imp id (fun hh n hn => (mem_copyV_all s n).mpr (hh n hn))⟩)
   obtain ⟨a1, a2⟩ := refines_step s op h hop
-  obtain ⟨b1, b2⟩ := refines_step (copyV s) op (prinv_copyV h) hop'
+  obtain ⟨b1, b2⟩ := refines_step (copyV s) op (prinv_copyV h) hop
   rw [abs_copyV] at b1 b2
   exact ⟨b2.trans a2.symm, b1.trans a1.symm⟩
 
 /-! ### concatenation -/
 
-theorem otherOk_copyV {a b : PR α} (h : OtherOk a b) : OtherOk (copyV a) b :=
-  ⟨h.1, h.2.imp id (fun hh n hn => (mem_copyV_all a n).mpr (hh n hn))⟩
-
 /-- **`a + b` appends the token lists in order and merges the names** (values of a name: `a`'s then `b`'s; new names
-    after the old ones; list-all flags united) — for well-formed `b` that is truthy or brings no new list-all name. -/
-theorem concat_is_merge (a b : PR α) (hb : OtherOk a b) : abs (addV a b) = (abs a).merge (abs b) := by
+    after the old ones; list-all flags united) — for every well-formed `b`, empty or not. -/
+theorem concat_is_merge (a b : PR α) (hb : PRInv b) : abs (addV a b) = (abs a).merge (abs b) := by
   unfold addV
-  rw [abs_iadd (copyV a) b (otherOk_copyV hb), abs_copyV]
+  rw [abs_iadd (copyV a) b hb, abs_copyV]
 
 theorem prinv_addV {a b : PR α} (ha : PRInv a) : PRInv (addV a b) := prinv_iadd (prinv_copyV ha)
 
@@ -70,58 +62,25 @@ theorem Abs.merge_assoc (a b c : Abs α) : (a.merge b).merge c = a.merge (b.merg
   · intro k; simp [Abs.merge, List.append_assoc]
   · intro k; simp [Abs.merge, Bool.or_assoc]
 
-/-- **Concatenation is associative on both views**, whenever each `+` involved is a merge (`OtherOk`). -/
-theorem concat_assoc (a b c : PR α) (hab : OtherOk a b) (hbc : OtherOk b c)
-    (h1 : OtherOk (addV a b) c) (h2 : OtherOk a (addV b c)) :
+/-- **Concatenation is associative on both views**, for all well-formed operands (no side condition). -/
+theorem concat_assoc (a b c : PR α) (hb : PRInv b) (hc : PRInv c) :
     abs (addV (addV a b) c) = abs (addV a (addV b c)) := by
-  rw [concat_is_merge _ _ h1, concat_is_merge _ _ hab, concat_is_merge _ _ h2, concat_is_merge _ _ hbc,
-    Abs.merge_assoc]
+  rw [concat_is_merge _ _ hc, concat_is_merge _ _ hb, concat_is_merge _ _ (prinv_addV hb),
+    concat_is_merge _ _ hc, Abs.merge_assoc]
 
-theorem truthy_iadd_of_truthy (s o : PR α) (h : o.truthy = true) (ho : PRInv o) : (iadd s o).truthy = true := by
-  rw [iadd_eq, h]
-  simp only [if_true, PR.truthy, Bool.or_eq_true, Bool.not_eq_true', List.isEmpty_eq_false_iff] at h ⊢
-  rcases h with h | h
-  · left; cases ht : o.toks with
-    | nil => exact absurd ht h
-    | cons x xs => simp
-  · right
-    -- some name of `o` ends up in the name table
-    intro hc
-    have hab := abs_iaddNames s o ho
-    have : (abs (iaddNames s o)).order = [] := by simp [abs, dkeys, hc]
-    rw [hab] at this
-    simp only [List.append_eq_nil_iff] at this
-    cases hd : o.dict with
-    | nil => exact h hd
-    | cons e d =>
-      have hs : (abs s).order = [] := this.1
-      have h2 := this.2
-      rw [hs] at h2
-      simp [abs, dkeys, hd] at h2
-
-/-- the usual case: every operand is a non-empty result (no hypothesis on list-all names needed) -/
-theorem concat_assoc_of_truthy (a b c : PR α) (hb : PRInv b) (hc : PRInv c)
-    (tb : b.truthy = true) (tc : c.truthy = true) :
-    abs (addV (addV a b) c) = abs (addV a (addV b c)) :=
-  concat_assoc a b c ⟨hb, Or.inl tb⟩ ⟨hc, Or.inl tc⟩ ⟨hc, Or.inl tc⟩
-    ⟨prinv_addV hb, Or.inl (truthy_iadd_of_truthy _ _ tc hc)⟩
-
-/-- **The empty result is a right identity**, always … -/
+/-- **The empty result is a right identity** … -/
 theorem concat_empty_right (a : PR α) : abs (addV a emptyPR) = abs a := by
-  have h : OtherOk a (emptyPR : PR α) := ⟨⟨by simp [emptyPR, dkeys], by simp [emptyPR]⟩, Or.inr (by simp [emptyPR])⟩
+  have h : PRInv (emptyPR : PR α) := ⟨by simp [emptyPR, dkeys], by simp [emptyPR]⟩
   rw [concat_is_merge a emptyPR h]
   apply Abs.ext' <;> simp [Abs.merge, abs, emptyPR, dkeys, dget]
 
-/-- … **and a left identity** for every `a` that is truthy or carries no list-all name
-    (the same side condition as everywhere: `iadd_refines_iff`). -/
-theorem concat_empty_left (a : PR α) (ha : PRInv a) (h : a.truthy = true ∨ a.all = []) :
-    abs (addV emptyPR a) = abs a := by
-  have hok : OtherOk (emptyPR : PR α) a := ⟨ha, h.imp id (fun e n hn => by rw [e] at hn; simp at hn)⟩
-  rw [concat_is_merge emptyPR a hok]
+/-- … **and a left identity**, for every well-formed `a`. -/
+theorem concat_empty_left (a : PR α) (ha : PRInv a) : abs (addV emptyPR a) = abs a := by
+  rw [concat_is_merge emptyPR a ha]
   apply Abs.ext' <;> simp [Abs.merge, abs, emptyPR, dkeys, dget]
 
 /-- `sum([x, y, …])` is the left fold of `+` from a copy of `x`, hence of `merge` -/
-theorem sum_is_fold (x : PR α) (rest : List (PR α)) (h : ∀ y ∈ rest, PRInv y ∧ y.truthy = true) :
+theorem sum_is_fold (x : PR α) (rest : List (PR α)) (h : ∀ y ∈ rest, PRInv y) :
     ∃ r, sumV (x :: rest) = some r ∧ abs r = rest.foldl (fun acc y => acc.merge (abs y)) (abs x) := by
   refine ⟨_, rfl, ?_⟩
   have gen : ∀ (s : PR α), abs (rest.foldl addV s) = rest.foldl (fun acc y => acc.merge (abs y)) (abs s) := by
@@ -131,23 +90,45 @@ theorem sum_is_fold (x : PR α) (rest : List (PR α)) (h : ∀ y ∈ rest, PRInv
       intro s
       have hy := h y (by simp)
       simp only [List.foldl_cons]
-      rw [ih (fun z hz => h z (List.mem_cons_of_mem _ hz)), concat_is_merge s y ⟨hy.1, Or.inl hy.2⟩]
+      rw [ih (fun z hz => h z (List.mem_cons_of_mem _ hz)), concat_is_merge s y hy]
   rw [gen, abs_copyV]
 
-/-- **Where associativity fails** (same root as `iadd_falsy_shortcut_deviates`): `a` binds `x` once, `o` is an empty
-    result carrying the list-all flag of `x`, `b` binds `x` again.  `(a + o) + b` answers `["x"]` with the last value,
-    `a + (o + b)` with the list of both.  Replayed on the real class by harness/props/c11.py. -/
-theorem concat_assoc_fails_witness :
-    ∃ a o b : PR String, PRInv a ∧ PRInv o ∧ PRInv b ∧
-      (step (addV (addV a o) b) (.getName "x")).2 = .view (.one "c") ∧
+/-- regression witness of the fixed finding `concat_assoc_falsy_listall`: `a` binds `x` once, `o` is an empty
+    result carrying the list-all flag of `x`, `b` binds `x` again; both groupings now answer `["x"]` with both values. -/
+theorem concat_assoc_former_witness :
+    ∃ a o b : PR String, PRInv a ∧ PRInv o ∧ PRInv b ∧ o.truthy = false ∧
+      (step (addV (addV a o) b) (.getName "x")).2 = .view (.many ["b", "c"]) ∧
       (step (addV a (addV o b)) (.getName "x")).2 = .view (.many ["b", "c"]) :=
   ⟨{ toks := ["b"], dict := [("x", [("b", 0)])], all := [] }, { toks := [], dict := [], all := ["x"] },
    { toks := ["c"], dict := [("x", [("c", 0)])], all := [] },
-   ⟨by decide, by decide⟩, ⟨by decide, by decide⟩, ⟨by decide, by decide⟩, by decide +kernel, by decide +kernel⟩
+   ⟨by decide, by decide⟩, ⟨by decide, by decide⟩, ⟨by decide, by decide⟩, by decide, by decide +kernel,
+   by decide +kernel⟩
 
 example : ∃ a b c : PR String, b.truthy = true ∧ c.truthy = true ∧
     (addV (addV a b) c).toks = ["1", "2", "3"] ∧ (step (addV a (addV b c)) (.getName "x")).2 = .view (.one "3") :=
   ⟨{ toks := ["1"], dict := [("x", [("1", 0)])], all := [] }, { toks := ["2"], dict := [("y", [("2", 0)])], all := [] },
    { toks := ["3"], dict := [("x", [("3", 0)])], all := [] }, by decide, by decide, by decide +kernel, by decide +kernel⟩
+
+/-- **One round of the loop of `from_dict`** on the full model: `ret += cls([tok-ish], name=k, …)` with a name `k`
+    that `ret` does not have yet appends the one token, puts `k` after the existing names with exactly the one value,
+    and changes nothing else.  (This is what the tree model `PPModel/Mod/PRFromDict.lean` takes for granted.) -/
+theorem from_dict_item_step (s : PR α) (k : String) (tok val : α) (hk : k ∉ dkeys s.dict) :
+    abs (iadd s { toks := [tok], dict := [(k, [(val, 0)])], all := [] }) =
+      { toks := s.toks ++ [tok], order := (abs s).order ++ [k],
+        vals := fun k' => if k' = k then [val] else (abs s).vals k', la := (abs s).la } := by
+  have ho : PRInv ({ toks := [tok], dict := [(k, [(val, 0)])], all := [] } : PR α) :=
+    ⟨by simp [dkeys], by simp⟩
+  rw [abs_iadd s _ ho]
+  have hnone : dget s.dict k = none := (dget_none_iff _ _).mpr hk
+  apply Abs.ext'
+  · rfl
+  · show dkeys s.dict ++ List.filter (fun x => decide (x ∉ dkeys s.dict)) [k] = dkeys s.dict ++ [k]
+    simp [List.filter_cons, hk]
+  · intro k'
+    by_cases h : k' = k
+    · subst h; simp [Abs.merge, abs, dget, hnone]
+    · have h' : ¬ k = k' := fun e => h e.symm
+      simp [Abs.merge, abs, dget, h, h']
+  · intro k'; simp [Abs.merge, abs]
 
 end PP.PR
